@@ -161,6 +161,16 @@ def base_packets():
     for n in NAMES:
         P['data' + n] = bytes(enc.make_data(n, enc.MetaInfo(freshness_period=10), b'C' + n.encode(), signer=DigestSha256Signer()))
     P['data-long'] = bytes(enc.make_data('/a/b/c/d', enc.MetaInfo(), b'z' * 300, signer=DigestSha256Signer()))
+    # names whose printing is hard: a typed-number component far longer than a number (1800 bytes: beyond CPython's
+    # 4300-digit int-to-str limit; `params_sha256_checker` prints the name eagerly for its log line - fixed in /repo:
+    # the ValueError of Component.to_str used to escape the receive pipeline), and of widths 3 and 9
+    for tag, val in (('seg1800', b'\x01' * 1800), ('seg3', b'\x00\x00\x01'), ('seg9', b'\x01' * 9)):
+        longn = enc.Name.from_str('/h/1') + [enc.Component.from_bytes(val, 50)]
+        P['int-param-' + tag] = bytes(enc.make_interest(longn, enc.InterestParam(nonce=6), b'xyz'))
+        P['int-' + tag] = bytes(enc.make_interest(longn, enc.InterestParam(nonce=6)))
+        P['data-' + tag] = bytes(enc.make_data(enc.Name.from_str('/a/b') + [enc.Component.from_bytes(val, 54)], enc.MetaInfo(), b'v',
+                                              signer=DigestSha256Signer()))
+    P['nack-seg1800'] = bytes(lp.make_network_nack(P['int-seg1800'], 150))
     P['data-d0'] = data_d0()
     P['nack'] = bytes(lp.make_network_nack(P['int'], 150))
     P['nack-cbp'] = bytes(lp.make_network_nack(P['int-cbp'], 50))
